@@ -1161,6 +1161,43 @@ func genSrvLimits(p *prng, thorough bool, w *bufio.Writer) {
 			g.done(sid, respGen{status: 200, body: "none"})
 		}
 	}
+	// every slot held by a handler that does not come back, then requests on ever new ids: each is refused, and the
+	// memory of the ids this side reset must stay within its bound although no stream closes meanwhile (also with rapid
+	// resets of the peer's own in between, and with streams closing in between)
+	for variant := 0; variant < 3; variant++ {
+		mcs := 1 + variant
+		g.newConn(mcs, 2000, 500)
+		g.settings()
+		var running []uint32
+		for i := 0; i < mcs; i++ {
+			sid := g.sid()
+			g.simpleReq(sid, "GET", nil)
+			running = append(running, sid)
+		}
+		n := 300
+		if thorough {
+			n = 700
+		}
+		for i := 0; i < n; i++ {
+			sid := g.sid()
+			g.frame(frameBytes(1, 5, sid, g.enc.block(nil, []kv{{k: ":method", v: "GET"}, {k: ":scheme", v: "https"}, {k: ":path", v: "/"}, {k: ":authority", v: "a"}})))
+			if variant == 1 && i%3 == 0 {
+				g.rst(sid, 8)
+			}
+			if variant == 2 && i == n/2 {
+				g.done(running[0], respGen{status: 200, body: "none"})
+				running = running[1:]
+			}
+			if i%50 == 49 || i > n-4 {
+				g.gauges()
+			}
+		}
+		g.mon()
+		for _, sid := range running {
+			g.done(sid, respGen{status: 200, body: "none"})
+		}
+		g.gauges()
+	}
 	// the CONTINUATION frames above carry fields that end; these carry one that does not (F68)
 	genHeldFields(g, thorough, false)
 	g.line("srv %s end", g.id)
